@@ -28,10 +28,10 @@ theorem cond_agree (T : TotalOracles) (c : Ctx) (leaf : Bytes) (annex : Option B
     (i : ScriptSpec.Instr) (idx pos : Nat) (hR : Rel c leaf annex st s) (hs : isCondOp i.op = true) :
     Agree c leaf annex (execOp c st i.op idx pos (st.exe.all id))
       (ScriptSpec.execOpcode (envOf T c leaf annex) s i (st.exe.all id) pos) := by
-  obtain ⟨h1, h2, h3, h5, h6, h7, h8, h9, h10⟩ := hR
+  obtain ⟨h1, h2, h3, h5, h6, h7, h8, h9, h10, h11⟩ := hR
   obtain ⟨sstack, salt, scond, sop, scode, scsp, sw⟩ := s
   obtain ⟨stack, alt, exe, pbegin, opcnt, ed⟩ := st
-  simp only at h1 h2 h3 h5 h6 h7 h8 h9 h10
+  simp only at h1 h2 h3 h5 h6 h7 h8 h9 h10 h11
   subst h1 h2 h3 h5
   obtain ⟨iop, idata, iafter⟩ := i
   simp only [isCondOp, Bool.or_eq_true, beq_iff_eq] at hs
@@ -40,7 +40,7 @@ theorem cond_agree (T : TotalOracles) (c : Ctx) (leaf : Bytes) (annex : Option B
     simp only [execOp, ScriptSpec.execOpcode, ScriptSpec.opIf, envOf_sv, envOf_f, ← flag_minimalif, ← bts2bool_eq]
     cases hin : exe.all id
     · simp [agree_ok, pure, Except.pure, bind, Except.bind]
-      exact ⟨rfl, rfl, rfl, rfl, h6, h7, h8, h9, h10⟩
+      exact ⟨rfl, rfl, rfl, rfl, h6, h7, h8, h9, h10, h11⟩
     · cases stack with
       | nil => simp [agree_fail, throw, throwThe, MonadExceptOf.throw, bind, Except.bind]
       | cons v r =>
@@ -53,12 +53,12 @@ theorem cond_agree (T : TotalOracles) (c : Ctx) (leaf : Bytes) (annex : Option B
         · by_cases hw : (c.sv == SigVersion.witnessV0 && has c.flags VER_MINIMALIF && (decide (1 < v.length) || v.length == 1 && v != [1])) = true
           · simp [ht, hw, agree_fail, throw, throwThe, MonadExceptOf.throw]
           · simp [ht, hw, agree_ok]
-            exact ⟨rfl, rfl, rfl, rfl, h6, h7, h8, h9, h10⟩
+            exact ⟨rfl, rfl, rfl, rfl, h6, h7, h8, h9, h10, h11⟩
   · -- OP_NOTIF
     simp only [execOp, ScriptSpec.execOpcode, ScriptSpec.opIf, envOf_sv, envOf_f, ← flag_minimalif, ← bts2bool_eq]
     cases hin : exe.all id
     · simp [agree_ok, pure, Except.pure, bind, Except.bind]
-      exact ⟨rfl, rfl, rfl, rfl, h6, h7, h8, h9, h10⟩
+      exact ⟨rfl, rfl, rfl, rfl, h6, h7, h8, h9, h10, h11⟩
     · cases stack with
       | nil => simp [agree_fail, throw, throwThe, MonadExceptOf.throw, bind, Except.bind]
       | cons v r =>
@@ -71,21 +71,21 @@ theorem cond_agree (T : TotalOracles) (c : Ctx) (leaf : Bytes) (annex : Option B
         · by_cases hw : (c.sv == SigVersion.witnessV0 && has c.flags VER_MINIMALIF && (decide (1 < v.length) || v.length == 1 && v != [1])) = true
           · simp [ht, hw, agree_fail, throw, throwThe, MonadExceptOf.throw]
           · simp [ht, hw, agree_ok]
-            exact ⟨rfl, rfl, rfl, rfl, h6, h7, h8, h9, h10⟩
+            exact ⟨rfl, rfl, rfl, rfl, h6, h7, h8, h9, h10, h11⟩
   · -- OP_ELSE
     simp only [execOp, ScriptSpec.execOpcode, ScriptSpec.opElse, condOf_empty]
     cases exe with
     | nil => simp [agree_panic, throw, throwThe, MonadExceptOf.throw]
     | cons b r =>
       simp [agree_ok, pure, Except.pure, condOf_toggle]
-      exact ⟨rfl, rfl, rfl, rfl, h6, h7, h8, h9, h10⟩
+      exact ⟨rfl, rfl, rfl, rfl, h6, h7, h8, h9, h10, h11⟩
   · -- OP_ENDIF
     simp only [execOp, ScriptSpec.execOpcode, ScriptSpec.opEndif, condOf_empty]
     cases exe with
     | nil => simp [agree_panic, throw, throwThe, MonadExceptOf.throw]
     | cons b r =>
       simp [agree_ok, pure, Except.pure, condOf_pop]
-      exact ⟨rfl, rfl, rfl, rfl, h6, h7, h8, h9, h10⟩
+      exact ⟨rfl, rfl, rfl, rfl, h6, h7, h8, h9, h10, h11⟩
 
 /-- opcodes that no branch of either interpreter knows (plus the disabled ones, which the frame rejects first) -/
 def isBadOp (op : Nat) : Bool :=
